@@ -2,6 +2,7 @@ package main
 
 import (
 	"fmt"
+	"os"
 	"regexp"
 	"runtime"
 	"sort"
@@ -72,6 +73,7 @@ func (st *c05State) suspect(s *c05Suspect) {
 	st.suspects = append(st.suspects, s)
 	st.mu.Unlock()
 	st.r.Count("suspected_hangs", 1)
+	fmt.Fprintf(os.Stderr, "c05: suspected hang, class %s\n", s.Class)
 }
 
 var c05GoHdr = regexp.MustCompile(`^goroutine (\d+) \[([^\]]*)\]`)
@@ -132,7 +134,7 @@ func (st *c05State) confirm() {
 	if len(st.suspects) == 0 {
 		return
 	}
-	time.Sleep(2 * time.Second)
+	time.Sleep(1 * time.Second)
 	type obs struct {
 		callee string
 		n      int
@@ -161,12 +163,13 @@ func (st *c05State) confirm() {
 				}
 			}
 		}
-		time.Sleep(1200 * time.Millisecond)
+		time.Sleep(800 * time.Millisecond)
 	}
 	for _, s := range st.suspects {
 		select {
 		case <-s.done:
 			r.Count("suspects_finished_late", 1)
+			fmt.Fprintf(os.Stderr, "c05: suspect finished late, class %s\n", s.Class)
 			continue
 		default:
 		}
@@ -290,7 +293,12 @@ func c05Probes() []*c05Probe {
 				if build == "update" && len(sh) == 3 {
 					continue
 				}
-				p := &c05Probe{Alg: alg, AlgName: algNames[alg], Build: build, Calls: 450}
+				p := &c05Probe{Alg: alg, AlgName: algNames[alg], Build: build, Calls: 50}
+				for _, x := range sh {
+					if x.w > 0 && !x.down {
+						p.Calls += 100 * x.w // WrrSimple rescans when the credits (100 per weight unit) are used up
+					}
+				}
 				for i, x := range sh {
 					p.Backends = append(p.Backends, bspec{Name: fmt.Sprintf("b%d", i), Addr: fmt.Sprintf("10.3.0.%d", i+1), Port: 80, Weight: x.w})
 					p.Down = append(p.Down, x.down)
@@ -302,7 +310,10 @@ func c05Probes() []*c05Probe {
 	return out
 }
 
-func c05Sequential(st *c05State, probes []*c05Probe) {
+// c05Sequential starts one goroutine per probe class and returns the function
+// that waits for them (a class whose goroutine makes no progress for 10 s is
+// recorded as a suspected hang and left behind).
+func c05Sequential(st *c05State, probes []*c05Probe) (wait func()) {
 	r := st.r
 	byClass := map[string][]*c05Probe{}
 	var classes []string
@@ -329,7 +340,6 @@ func c05Sequential(st *c05State, probes []*c05Probe) {
 			atomic.StoreInt64(&b.gid, goid())
 			for i, p := range b.ps {
 				atomic.StoreInt64(&b.prog, int64(i))
-				r.WriteAhead(p)
 				p.run(r)
 				r.CaseS(fmt.Sprintf("probe|%d|%s|%v|%v", p.Alg, p.Build, p.Backends, p.Down), len(p.Backends) >= 2)
 				r.Count("sequential_probes", 1)
@@ -339,27 +349,29 @@ func c05Sequential(st *c05State, probes []*c05Probe) {
 			close(b.done)
 		}()
 	}
-	for _, b := range bs {
-		last, stale := int64(-1), 0
-		for {
-			select {
-			case <-b.done:
-			case <-time.After(500 * time.Millisecond):
-				cur := atomic.LoadInt64(&b.prog)
-				if cur != last {
-					last, stale = cur, 0
-				} else {
-					stale++
+	return func() {
+		for _, b := range bs {
+			last, stale := int64(-1), 0
+			for {
+				select {
+				case <-b.done:
+				case <-time.After(500 * time.Millisecond):
+					cur := atomic.LoadInt64(&b.prog)
+					if cur != last {
+						last, stale = cur, 0
+					} else {
+						stale++
+					}
+					if stale < 20 {
+						continue
+					}
+					p := b.ps[cur]
+					st.suspect(&c05Suspect{Class: "sequential," + b.class, done: b.done, gids: []int64{atomic.LoadInt64(&b.gid)},
+						Witness: map[string]interface{}{"probe": p, "single_threaded": true, "skipped_probes_of_class": len(b.ps) - int(cur) - 1}})
+					r.Count("sequential_probes_behind_a_suspected_hang", int64(len(b.ps)-int(cur)-1))
 				}
-				if stale < 12 {
-					continue
-				}
-				p := b.ps[cur]
-				st.suspect(&c05Suspect{Class: "sequential," + b.class, done: b.done, gids: []int64{atomic.LoadInt64(&b.gid)},
-					Witness: map[string]interface{}{"probe": p, "single_threaded": true, "skipped_probes_of_class": len(b.ps) - int(cur) - 1}})
-				r.Count("sequential_probes_skipped_after_hang", int64(len(b.ps)-int(cur)-1))
+				break
 			}
-			break
 		}
 	}
 }
@@ -367,10 +379,10 @@ func c05Sequential(st *c05State, probes []*c05Probe) {
 // ---- part 2: concurrent histories ----
 
 type c05Hist struct {
-	Family string `json:"family"` // gslb | rr | rr-simple
-	G      int    `json:"goroutines"`
-	Ops    int    `json:"ops_per_goroutine"`
-	Index  int    `json:"index"`
+	Family string  `json:"family"` // gslb | rr | rr-simple
+	G      int     `json:"goroutines"`
+	Ops    int     `json:"ops_per_goroutine"`
+	Index  int     `json:"index"`
 	Init   []bspec `json:"initial_backends"`
 }
 
@@ -496,7 +508,7 @@ func c05Run(st *c05State, h *c05Hist) bool {
 	}
 	mutatorsLeft = int64(nMut)
 	opCount := map[string]*int64{}
-	for _, k := range []string{"balance", "flip", "update", "reload", "slowstart", "basic", "state", "conn", "len"} {
+	for _, k := range []string{"balance", "flip", "update", "reload", "slowstart", "basic", "state", "conn"} {
 		opCount[k] = new(int64)
 	}
 	start := make(chan struct{})
@@ -533,7 +545,7 @@ func c05Run(st *c05State, h *c05Hist) bool {
 					kind = "flip"
 				}
 				if bal == nil && (kind == "basic" || kind == "state") {
-					kind = "len"
+					kind = "balance"
 				}
 				cur[w].Store(kind)
 				try(r, func() interface{} {
@@ -605,8 +617,6 @@ func c05Run(st *c05State, h *c05Hist) bool {
 						bal.SetGslbBasic(gb.conf())
 					case "state":
 						bal_gslb.State(bal)
-					case "len":
-						brr.Len()
 					}
 				})
 				atomic.AddInt64(opCount[kind], 1)
@@ -710,7 +720,7 @@ func c05Drain(st *c05State, idx int) bool {
 	case <-done:
 		r.Count("drain_trials", 1)
 		return true
-	case <-time.After(8 * time.Second):
+	case <-time.After(6 * time.Second):
 		st.suspect(&c05Suspect{Class: "concurrent,WrrSimple,all-backends-marked-unavailable-during-rescan", done: done, gids: []int64{atomic.LoadInt64(&gidA)},
 			frozen: func() interface{} {
 				var out []string
@@ -727,7 +737,7 @@ func c05Drain(st *c05State, idx int) bool {
 
 func c05(r *vkit.Run) {
 	r.RaceScope("bfe_balance/")
-	r.SetRule("part 1 (sequential totality): every list of 0-3 backends with weight in {-1,0,1,2} x available/unavailable, built by Init or Update, x all 5 algorithms x 450 calls, each class (algorithm, list shape) in its own watchdogged goroutine. part 2 (concurrent): histories with G in {4,16,64} goroutines on one shared balancer: family gslb (BalanceGslb: Balance, SetAvail, Inc/DecConnNum, Reload, BackendReload with lists of 0/1/2/8, SetSlowStart, SetGslbBasic, State), family rr (BalanceRR: Balance with WrrSmooth/WrrSticky/WlcSimple/WlcSmooth, SetAvail, Update, SetSlowStart, Len), family rr-simple (adds WrrSimple; lists non-empty, weights positive); a quarter of the goroutines are mutators. part 3: steered trials where every backend is marked unavailable while WrrSimple rescans after its credits ran out. Monitors: race detector (scope bfe_balance/), recovered panics, termination after quiescence (all mutators finished; call still running at the end of the run in 5/5 stack samples). Non-trivial = history with >=2 goroutines or probe with >=2 backends; distinct = interleaving fingerprint (completion order of all ops) / probe")
+	r.SetRule("part 1 (sequential totality): every list of 0-3 backends with weight in {-1,0,1,2} x available/unavailable, built by Init or Update, x all 5 algorithms x (50 + 100*sum of pickable weights) calls, each class (algorithm, list shape) in its own watchdogged goroutine. part 2 (concurrent): histories with G in {4,16,64} goroutines on one shared balancer: family gslb (BalanceGslb: Balance, SetAvail, Inc/DecConnNum, Reload, BackendReload with lists of 0/1/2/8, SetSlowStart, SetGslbBasic, State), family rr (BalanceRR: Balance with WrrSmooth/WrrSticky/WlcSimple/WlcSmooth, SetAvail, Inc/DecConnNum, Update, SetSlowStart), family rr-simple (adds WrrSimple; lists non-empty, weights positive); a quarter of the goroutines are mutators. part 3: steered trials where every backend is marked unavailable while WrrSimple rescans after its credits ran out. Monitors: race detector (scope bfe_balance/), recovered panics, termination after quiescence (all mutators finished; call still running at the end of the run in 5/5 stack samples). Non-trivial = history with >=2 goroutines or probe with >=2 backends; distinct = interleaving fingerprint (completion order of all ops) / probe")
 	r.Assume("interleavings are sampled, not enumerated; a hang is only reported for a state that no goroutine changes any more")
 	st := &c05State{r: r, hung: map[string]bool{}}
 	if r.Replay != "" {
@@ -741,7 +751,7 @@ func c05(r *vkit.Run) {
 		}
 		switch {
 		case w.Probe != nil:
-			c05Sequential(st, []*c05Probe{w.Probe})
+			c05Sequential(st, []*c05Probe{w.Probe})()
 		case w.History != nil:
 			c05Run(st, w.History)
 		default:
@@ -752,7 +762,7 @@ func c05(r *vkit.Run) {
 		r.SetMinDistinct(0)
 		return
 	}
-	c05Sequential(st, c05Probes())
+	waitSequential := c05Sequential(st, c05Probes())
 
 	perCell := r.N(4, 60)
 	ops := r.N(1500, 3000)
@@ -784,6 +794,7 @@ func c05(r *vkit.Run) {
 			break
 		}
 	}
+	waitSequential()
 	st.confirm()
 	if r.Counter("ops_balance") == 0 || r.Counter("ops_update") == 0 || r.Counter("ops_flip") == 0 {
 		r.Inconclusive("concurrent workload did not run")
